@@ -80,6 +80,15 @@ def expr_lines(tier, seed):
         out.append((f"patom:{lab}@assign", head, [norm.stmt_line(1, norm.assign(norm.V("p"), "=", e), "simple")], tail))
     ia = ce.i_atoms()
     k = seed
+    if tier == "thorough":
+        # the whole space the quick slices are drawn from, and two more pairings
+        for rot in (7, 3, 11):
+            for (la, a, _), (lb, b_, _) in zip(ia, ia[rot:] + ia[:rot]):
+                for op in ce.BINOPS:
+                    for ctx in ctxs:
+                        if ce._allowed(ctx, la, lb):
+                            out.append((f"bin:{la}{op}{lb}@{ctx}", head, ce.stmt_lines(ctx, norm.binop(a, op, b_)), tail))
+        return out
     for (la, a, _), (lb, b_, _) in zip(ia, ia[7:] + ia[:7]):
         for op in ce.BINOPS[k % 3::3]:
             ctx = ctxs[k % len(ctxs)]
@@ -134,6 +143,15 @@ def _tclass(t):
     return t.lower()
 
 
+def _same_tokens(old, new):
+    a, _, e1 = impl.lex(old)
+    b, _, e2 = impl.lex(new)
+    if a is None or b is None:
+        return False
+    f = lambda ts: [(t.type, t.value) for t in ts if t.type not in ("SPACE", "TAB")]
+    return f(a) == f(b)
+
+
 def expr_task(task):
     label, head, mid, tail = task
     lines = head + mid + tail
@@ -152,8 +170,8 @@ def expr_task(task):
             exp = exp_idx if isinstance(exp_idx, tuple) else (exp_idx,)
             n += 1
             prob, r = judge_variant(".c", fname, norm.render(new_lines), code, tuple(npre + e + 1 for e in exp))
-            if prob and vid == "V35" and "/*" in new_lines[exp[0]].text() and "/*" not in lines[exp[0]].text():
-                continue        # removing the blank after '/' in front of '*p' opens a comment: not this operator's edit
+            if prob and not _same_tokens(lines[exp[0]].text(), new_lines[exp[0]].text()):
+                continue        # the edit glued two lexemes into another one ('/ *p' -> '/*', '- -n' -> '--n'): not this operator's edit
             if prob:
                 ctx = edit_context(lines[exp[0]].text(), new_lines[exp[0]].text())
                 out.append((vid, code, f"{ctx[0]}>{ctx[1]}", prob, new_lines[exp[0]].text(), [d for d in r.diags if d[0] == "Error"][:4],
